@@ -59,6 +59,14 @@ func c20Stored(name string) (time.Time, int64) {
 	return time.Unix(s, 0), s
 }
 
+// vC20Since replaces time.Since in the symbolic run: exact for the
+// whole-second instants the engine's time.Now model and time.Unix(sec, 0)
+// produce (time.Time.Sub goes through a 64-bit multiply/divide by 1e9 that no
+// solver back end finishes). The native replay runs the real time.Since.
+func vC20Since(t time.Time) time.Duration {
+	return time.Duration(time.Now().Unix()-t.Unix()) * time.Second
+}
+
 func c20Builder(st *c20Store, assumeValid bool, expiry time.Duration) *Builder {
 	g, err := graphdb.NewChannelGraph(st, graphdb.WithUseGraphCache(false))
 	if err != nil {
@@ -73,6 +81,8 @@ func c20Builder(st *c20Store, assumeValid bool, expiry time.Duration) *Builder {
 // only if (with AssumeChannelValid) the update is not a disable and the
 // update's timestamp is within ChannelPruneExpiry of now.
 func VerifC20StaleEdge() {
+	vReplace("time.Since", "github.com/lightningnetwork/lnd/graph.vC20Since")
+	vAssumption("time.Since(t) = (now - t) in whole seconds, for t = time.Unix(sec, 0) and the engine's whole-second time.Now")
 	st := &c20Store{}
 	var s1, s2 int64
 	st.e1, s1 = c20Stored("e1")
